@@ -7,6 +7,7 @@
 package resharing
 
 import (
+	"bytes"
 	"fmt"
 	"math/big"
 
@@ -128,16 +129,23 @@ func (p *LocalParty) ValidateMessage(msg tss.ParsedMessage) (bool, *tss.Error) {
 		return ok, err
 	}
 	// check that the message's "from index" will fit into the array
-	var maxFromIdx int
+	var committee tss.SortedPartyIDs
 	switch msg.Content().(type) {
 	case *DGRound2Message1, *DGRound2Message2, *DGRound4Message1, *DGRound4Message2:
-		maxFromIdx = len(p.params.NewParties().IDs()) - 1
+		committee = p.params.NewParties().IDs()
 	default:
-		maxFromIdx = len(p.params.OldParties().IDs()) - 1
+		committee = p.params.OldParties().IDs()
 	}
+	maxFromIdx := len(committee) - 1
 	if maxFromIdx < msg.GetFrom().Index {
 		return false, p.WrapError(fmt.Errorf("received msg with a sender index too great (%d <= %d)",
 			maxFromIdx, msg.GetFrom().Index), msg.GetFrom())
+	}
+	// messages are filed by type and sender index alone: the sender must be the member of the committee
+	// this message type belongs to that the index names (an old member may not speak for a new one)
+	if !bytes.Equal(committee[msg.GetFrom().Index].Key, msg.GetFrom().Key) {
+		return false, p.WrapError(fmt.Errorf("received msg from a sender that is not member %d of the committee sending this message type",
+			msg.GetFrom().Index), msg.GetFrom())
 	}
 	return true, nil
 }
